@@ -105,6 +105,20 @@ def run_property(pid, spec, tier, seed, deadline=None):
             f, res = v["f"], v["res"]
             r = res["_run"]
             # confirm by replaying the single case twice in fresh processes
+            if r.kind == "aux":
+                # auxiliary (sampling) pass: counts only if it shows again in a second complete run
+                ed = os.path.join(scratch, "auxrep"); shutil.rmtree(ed, ignore_errors=True); os.makedirs(ed)
+                rr = exec_harness(res["_exe"], r.args + ["--tier=" + tier], r.env, ed)
+                if not any((x["sig"], x["clause"]) == key for x in rr.get("failures", [])):
+                    lines.append("AUX-UNCONFIRMED property=%s %s | %s : %s (sampling pass, did not show again; not counted)" % (pid, f["sig"], f["clause"], f["msg"]))
+                    continue
+                n = len(violations)
+                path = os.path.join(VERIF, "out", "replay", "%s-%d.json" % (pid, n))
+                json.dump(dict(property=pid, tier=tier, seed=seed, engine="icb", run=r.describe(), clause=f["clause"], msg=f["msg"], replay_argv=[res["_exe"]] + r.args, replay_cmd="bin/replay %s" % path), open(path, "w"), indent=1)
+                violations.append(dict(sig=f["sig"], clause=f["clause"], id=f["id"], msg=f["msg"], count=v["count"], replay=path))
+                lines.append("VIOLATION property=%s replay=%s" % (pid, path))
+                lines.append("  # %s | %s | %s : %s" % (f["sig"], f["clause"], f["id"], f["msg"]))
+                continue
             if r.kind == "icb":
                 sidx, rest = f["id"].split(":", 1)
                 sched = f["id"].split("|schedule=", 1)[-1]
